@@ -315,7 +315,8 @@ theorem applyParasM_withDefaults (ed : Editor α)
   unfold Editor.applyParasM
   simp only [withDefaults_lineSep_idem, withDefaults_paraSep_idem]
 
-/-- the paragraph callback of `WrapOpts` -/
+/-- the paragraph callback of `WrapOpts` (a paragraph that ends with the line separator keeps it:
+the suffix test agrees on the two levels by `GoodSep.suffix`) -/
 def wrapParaCb (width : Int) (lineSep : List α) (_ : Nat) (para pre suf : List α) :
     R (List (List α)) := do
   let sepStart := gRepeat [cx.phA] (gLen cx pre)
@@ -324,7 +325,8 @@ def wrapParaCb (width : Int) (lineSep : List α) (_ : Nat) (para pre suf : List 
   let text := (Block.mk ls lineSep false).join
   let ss : Int := gLen cx sepStart
   let se : Int := gLen cx sepEnd
-  pure [if se > 0 then gSub cx text ss (-se) else gSub cx text ss (gLen cx text)]
+  let text := if se > 0 then gSub cx text ss (-se) else gSub cx text ss (gLen cx text)
+  pure [if lineSep.isSuffixOf para then text ++ lineSep else text]
 
 theorem wrapOpts_para (ed : Editor α) (width : Int) (o : Options α)
     (hpp : o.preservePara = true) :
@@ -470,8 +472,10 @@ theorem wrapParaCb_bridge (hV : VocabStable V = true) (hsp : [0x20] ∈ V) (hhy 
   | ok ls =>
     have hls := wrapLines_B_over hsp hhy _ htoks width S ls hw
     show Except.ok _ = Except.ok _
-    rw [join_flatten_gen, cut_bridge hV (join_over hSV hls false)]
-    rfl
+    rw [join_flatten_gen, cut_bridge hV (join_over hSV hls false), hS.suffix para hpara]
+    split
+    · simp only [List.map_cons, List.map_nil, List.flatten_append]
+    · rfl
 
 /-- **7b.** `Editor.WrapOpts`, paragraph mode (`[0x41]`, the placeholder "A", must be a token of
 the vocabulary) -/
